@@ -1,7 +1,7 @@
 (* C15 - float literals: the text handed to str::parse::<f64> is exactly the literal's own
-   digits (integer part, '.', fraction, optional exponent with optional '-'), the exponent
-   marker normalised to 'e', the suffix f/F dropped.  The conversion text -> f64 itself is
-   Rust's (assumed correctly rounded; the driver compares it with Python's float()). *)
+   digits (integer part, '.', fraction, optional exponent with optional sign '-' or '+'), the
+   exponent marker normalised to 'e', the suffix f/F dropped.  The conversion text -> f64
+   itself is Rust's (assumed correctly rounded; the driver compares it with Python's float()). *)
 From Coq Require Import NArith ZArith List Bool Lia.
 From NV Require Import Common.Outcome Text.Chars Text.Chars_proofs Text.LexLit Text.LexLit_proofs
   Text.Lexer Text.Lexer_proofs Text.LexSpec Text.LexSpec_proofs.
@@ -10,23 +10,61 @@ Open Scope N_scope.
 
 Definition digits (l : list N) : Prop := forallb is_ascii_digit l = true.
 
+(* the sign of an exponent as written: none, '-' or '+' *)
+Inductive esign := SgnNone | SgnMinus | SgnPlus.
+Definition sign_text (sg : esign) : list N :=
+  match sg with SgnNone => [] | SgnMinus => [45] | SgnPlus => [43] end.
+
 (* exponent part as written (upper: E instead of e) and as accumulated *)
-Definition exp_src (ex : option (bool * bool * list N)) : list N :=
+Definition exp_src (ex : option (bool * esign * list N)) : list N :=
   match ex with
   | None => []
-  | Some (upper, neg, e) => (if upper then 69 else 101) :: (if neg then [45] else []) ++ e
+  | Some (upper, sg, e) => (if upper then 69 else 101) :: sign_text sg ++ e
   end.
-Definition exp_acc (ex : option (bool * bool * list N)) : list N :=
+Definition exp_acc (ex : option (bool * esign * list N)) : list N :=
   match ex with
   | None => []
-  | Some (_, neg, e) => 101 :: (if neg then [45] else []) ++ e
+  | Some (_, sg, e) => 101 :: sign_text sg ++ e
   end.
-Definition exp_ok (ex : option (bool * bool * list N)) : Prop :=
+Definition exp_ok (ex : option (bool * esign * list N)) : Prop :=
   match ex with None => True | Some (_, _, e) => e <> [] /\ digits e end.
 
-Lemma not_digit_head (l rest : list N) (k : N) : is_ascii_digit k = false ->
-  match (k :: l) ++ rest with [] => True | c :: _ => is_ascii_digit c = false end.
-Proof. intros H. exact H. Qed.
+Lemma digit_not_sign e0 : is_ascii_digit e0 = true -> (e0 =? 45) || (e0 =? 43) = false.
+Proof.
+  intros H. apply ascii_digit_cases in H.
+  repeat (destruct H as [H|H]; [subst; reflexivity|]). subst; reflexivity.
+Qed.
+
+(* the exponent arm on  [sign] digits rest *)
+Lemma lex_exponent_signed acc sg e rest : e <> [] -> digits e -> stops rest ->
+  lex_exponent acc (sign_text sg ++ e ++ rest) = (TFloat (acc ++ 101 :: sign_text sg ++ e), rest).
+Proof.
+  intros He1 He2 Hr.
+  assert (Hse : span is_ascii_digit (e ++ rest) = (e, rest)) by (apply span_app; auto; now apply stops_not_digit).
+  assert (Hlen : negb (N.of_nat (length e) =? 0) = true).
+  { destruct e; [congruence|]. cbn [length]. rewrite Nat2N.inj_succ.
+    destruct (N.eqb_spec (N.succ (N.of_nat (length e))) 0); [lia|reflexivity]. }
+  unfold lex_exponent. destruct sg; cbn [sign_text app N.eqb Pos.eqb orb].
+  - destruct (digit_string_shape e He1 He2) as (e0 & e' & Ee & He0 & _). subst e. cbn [app].
+    rewrite (digit_not_sign e0 He0). change (e0 :: e' ++ rest) with ((e0 :: e') ++ rest).
+    rewrite Hse, Hlen. cbn [float_tok]. repeat (rewrite <- app_assoc; cbn [app]). reflexivity.
+  - rewrite Hse, Hlen. cbn [float_tok]. repeat (rewrite <- app_assoc; cbn [app]). reflexivity.
+  - rewrite Hse, Hlen. cbn [float_tok]. repeat (rewrite <- app_assoc; cbn [app]). reflexivity.
+Qed.
+
+(* ... and with no digit after the marker and optional sign: rejected *)
+Lemma lex_exponent_empty acc sg rest : stops rest ->
+  lex_exponent acc (sign_text sg ++ rest) = (TInvalid IBadFloat, rest).
+Proof.
+  intros Hr.
+  assert (Hse : span is_ascii_digit rest = ([], rest)) by (apply (span_app is_ascii_digit [] rest eq_refl); now apply stops_not_digit).
+  unfold lex_exponent. destruct sg; cbn [sign_text app N.eqb Pos.eqb orb]; try (rewrite Hse; reflexivity).
+  destruct rest as [|k r]; [reflexivity|].
+  assert (Hk : (k =? 45) || (k =? 43) = false).
+  { cbn in Hr. unfold is_delim in Hr. cbn [existsb] in Hr.
+    repeat (apply orb_true_iff in Hr; destruct Hr as [Hr|Hr]); try discriminate; apply N.eqb_eq in Hr; subst; reflexivity. }
+  rewrite Hk, Hse. reflexivity.
+Qed.
 
 Lemma float_literal_text U ip fp ex rest : ip <> [] -> digits ip -> digits fp -> exp_ok ex -> stops rest ->
   lex_first U (ip ++ 46 :: fp ++ exp_src ex ++ rest) = Ok ([TFloat (ip ++ 46 :: fp ++ exp_acc ex)], rest).
@@ -36,29 +74,30 @@ Proof.
   rewrite (span_app is_ascii_digit ds _ Hds) by reflexivity.
   cbn [N.eqb Pos.eqb].
   assert (Hsp : span is_ascii_digit (fp ++ exp_src ex ++ rest) = (fp, exp_src ex ++ rest)).
-  { apply span_app; auto. destruct ex as [[[u ng] e]|]; cbn [exp_src app].
+  { apply span_app; auto. destruct ex as [[[u sg] e]|]; cbn [exp_src app].
     - destruct u; reflexivity.
     - now apply stops_not_digit. }
-  rewrite Hsp. destruct ex as [[[u ng] e]|]; cbn [exp_src exp_acc app].
+  rewrite Hsp. destruct ex as [[[u sg] e]|]; cbn [exp_src exp_acc app].
   - destruct Hex as [He1 He2].
-    assert (Hse : span is_ascii_digit (e ++ rest) = (e, rest)) by (apply span_app; auto; now apply stops_not_digit).
-    assert (Hlen : negb (N.of_nat (length e) =? 0) = true).
-    { destruct e; [congruence|]. cbn [length]. rewrite Nat2N.inj_succ. destruct (N.eqb_spec (N.succ (N.of_nat (length e))) 0); [lia|reflexivity]. }
-    destruct (digit_string_shape e He1 He2) as (e0 & e' & Ee & He0 & _).
-    destruct u, ng; cbn [N.eqb Pos.eqb orb app]; unfold lex_exponent; cbn [N.eqb Pos.eqb app].
-    + rewrite Hse, Hlen. cbn [float_tok]. repeat (rewrite <- app_assoc; cbn [app]). reflexivity.
-    + subst e. cbn [app].
-      replace (e0 =? 45) with false by (apply ascii_digit_cases in He0; repeat (destruct He0 as [He0|He0]; [subst; reflexivity|]); subst; reflexivity).
-      change (e0 :: e' ++ rest) with ((e0 :: e') ++ rest). rewrite Hse, Hlen. cbn [float_tok]. repeat (rewrite <- app_assoc; cbn [app]). reflexivity.
-    + rewrite Hse, Hlen. cbn [float_tok]. repeat (rewrite <- app_assoc; cbn [app]). reflexivity.
-    + subst e. cbn [app].
-      replace (e0 =? 45) with false by (apply ascii_digit_cases in He0; repeat (destruct He0 as [He0|He0]; [subst; reflexivity|]); subst; reflexivity).
-      change (e0 :: e' ++ rest) with ((e0 :: e') ++ rest). rewrite Hse, Hlen. cbn [float_tok]. repeat (rewrite <- app_assoc; cbn [app]). reflexivity.
+    destruct u; cbn [N.eqb Pos.eqb orb app]; rewrite <- app_assoc.
+    all: rewrite (lex_exponent_signed _ sg e rest He1 He2 Hr); cbn [app]; rewrite <- ?app_assoc; cbn [app]; reflexivity.
   - rewrite !app_nil_r. destruct rest as [|k r4]; [reflexivity|].
     cbn in Hr. apply delim_facts in Hr. destruct Hr as (_ & _ & _ & Hr). cbn [existsb] in Hr.
     repeat (apply orb_false_iff in Hr; destruct Hr as [? Hr]).
     repeat match goal with H : (k =? _) = false |- _ => rewrite H; clear H end.
     cbn [orb]. reflexivity.
+Qed.
+
+(* the same without a fraction: <digits>e[sign]<digits>, e.g. 1e+21 *)
+Lemma float_exponent_text U ip (up : bool) sg e rest : ip <> [] -> digits ip -> e <> [] -> digits e -> stops rest ->
+  lex_first U (ip ++ (if up then 69 else 101) :: sign_text sg ++ e ++ rest) =
+  Ok ([TFloat (ip ++ 101 :: sign_text sg ++ e)], rest).
+Proof.
+  intros Hne Hip He1 He2 Hr. destruct (digit_string_shape ip Hne Hip) as (c & ds & -> & Hc & Hds).
+  cbn [app lex_first]. rewrite (lex_one_digit U c _ Hc). unfold lex_number.
+  rewrite (span_app is_ascii_digit ds _ Hds) by (destruct up; reflexivity).
+  destruct up; cbn [N.eqb Pos.eqb orb andb]; rewrite ?andb_false_r; cbn [orb];
+    rewrite (lex_exponent_signed _ sg e rest He1 He2 Hr); reflexivity.
 Qed.
 
 (* <digits>f : the digits, as a float *)
@@ -71,7 +110,7 @@ Proof.
   destruct up; cbn [N.eqb Pos.eqb orb andb]; rewrite ?andb_false_r; cbn [orb]; reflexivity.
 Qed.
 
-(* <digits>i|j and <digits>.<digits>i|j : imaginary *)
+(* <digits>i|j : imaginary *)
 Lemma imag_literal_text U ip (k : N) rest : ip <> [] -> digits ip -> In k [105; 73; 106; 74] ->
   lex_first U (ip ++ k :: rest) = Ok ([TImag ip], rest).
 Proof.
@@ -82,27 +121,22 @@ Proof.
     cbn [N.eqb Pos.eqb orb andb]; rewrite ?andb_false_r; cbn [orb]; reflexivity.
 Qed.
 
-(* an exponent marker with no digit after it is rejected, never read as a number *)
-Lemma empty_exponent_invalid U ip (up neg : bool) rest : ip <> [] -> digits ip -> stops rest ->
-  lex_first U (ip ++ (if up then 69 else 101) :: (if neg then [45] else []) ++ rest) = Ok ([TInvalid IBadFloat], rest).
+(* an exponent marker (and optional sign) with no digit after it is rejected, never read as a number *)
+Lemma empty_exponent_invalid U ip (up : bool) sg rest : ip <> [] -> digits ip -> stops rest ->
+  lex_first U (ip ++ (if up then 69 else 101) :: sign_text sg ++ rest) = Ok ([TInvalid IBadFloat], rest).
 Proof.
   intros Hne Hip Hr. destruct (digit_string_shape ip Hne Hip) as (c & ds & -> & Hc & Hds).
   cbn [app lex_first]. rewrite (lex_one_digit U c _ Hc). unfold lex_number.
   rewrite (span_app is_ascii_digit ds _ Hds) by (destruct up; reflexivity).
-  assert (Hse : span is_ascii_digit rest = ([], rest)) by (apply (span_app is_ascii_digit [] rest eq_refl); now apply stops_not_digit).
-  assert (H45 : match rest with [] => True | k :: _ => (k =? 45) = false end).
-  { destruct rest as [|k r]; auto. cbn in Hr. unfold is_delim in Hr. cbn [existsb] in Hr.
-    repeat (apply orb_true_iff in Hr; destruct Hr as [Hr|Hr]); try discriminate; apply N.eqb_eq in Hr; subst; reflexivity. }
-  destruct up, neg; cbn [N.eqb Pos.eqb orb andb app]; rewrite ?andb_false_r; cbn [orb]; unfold lex_exponent; cbn [N.eqb Pos.eqb app];
-    try (rewrite Hse; reflexivity);
-    (destruct rest as [|k r]; [reflexivity|]; rewrite H45; rewrite Hse; reflexivity).
+  destruct up; cbn [N.eqb Pos.eqb orb andb]; rewrite ?andb_false_r; cbn [orb];
+    rewrite (lex_exponent_empty _ sg rest Hr); reflexivity.
 Qed.
 
 Lemma float_suffix_imag_text U ip : ip <> [] -> digits ip ->
   (forall (up : bool) rest, lex_first U (ip ++ (if up then 70 else 102) :: rest) = Ok ([TFloat ip], rest)) /\
   (forall k rest, In k [105; 73; 106; 74] -> lex_first U (ip ++ k :: rest) = Ok ([TImag ip], rest)) /\
-  (forall (up neg : bool) rest, stops rest ->
-     lex_first U (ip ++ (if up then 69 else 101) :: (if neg then [45] else []) ++ rest) = Ok ([TInvalid IBadFloat], rest)).
+  (forall (up : bool) sg rest, stops rest ->
+     lex_first U (ip ++ (if up then 69 else 101) :: sign_text sg ++ rest) = Ok ([TInvalid IBadFloat], rest)).
 Proof.
   intros H1 H2. repeat split; intros.
   - now apply float_suffix_text.
